@@ -10,17 +10,21 @@
 import JoinModel.Lemmas.LoopRefine
 namespace JoinModel
 
-/-- The inputs the theorem speaks about. -/
-structure Supported (p : Input) (kind : Kind) : Prop where
-  /-- the async try macros are not covered by this theorem (their `try_join!` returns as soon as one operand fails) -/
-  asyncNotTry : kind.isAsync = true → kind.isTry = false
+/-- What every refinement theorem assumes about the program. -/
+structure SupportedBase (p : Input) : Prop where
   noJoiner : p.joiner = none
   noLazy : p.lazy = none
-  transposeDefault : p.transpose ≠ some false
   /-- what the parser guarantees: a branch starts with its initial value -/
   firstInitial : ∀ b ∈ p.branches, ∃ m ms, b.members = m :: ms ∧ m.deferred = false ∧ m.ctor = .initial
   /-- `let` names are pairwise distinct (rustc rejects `let (a, a) = …`) -/
   namesNodup : (p.branches.filterMap fun b => b.pat.map (·.ident)).Nodup
+
+/-- The inputs `sync_refines` speaks about. -/
+structure Supported (p : Input) (kind : Kind) : Prop extends SupportedBase p where
+  /-- the async try macros have their own theorem (`async_try_refines`): their `try_join!` returns as soon as one
+      operand fails -/
+  asyncNotTry : kind.isAsync = true → kind.isTry = false
+  transposeDefault : p.transpose ≠ some false
 
 def namesOf (p : Input) : List (Option String) := p.branches.map fun b => b.pat.map (·.ident)
 
@@ -73,8 +77,9 @@ theorem branchVars_nodup (bs : List Branch) (i0 : Nat)
       | none => simp only [hp, Var.r.injEq] at heq; omega
       | some pt => simp [hp] at heq
 
-theorem mkCtx_ok {p : Input} {kind : Kind} (hs : Supported p kind) {c : Ctx} (h : mkCtx p kind = .ok c) :
+theorem mkCtx_ok {p : Input} {kind : Kind} (hs : SupportedBase p) {c : Ctx} (h : mkCtx p kind = .ok c) :
     CtxOK c (namesOf p) ∧ c.kind = kind ∧ c.chains = p.branches.map (fun b => splitSteps b.members) ∧
+    c.transpose = p.transpose.getD (kind.isTry && !kind.isAsync) ∧
     c.n = p.branches.length ∧ 0 < c.n ∧ c.maxSteps = (c.chains.map (·.length)).foldl max 0 ∧
     (kind.isTry = false → ∀ t, p.handler ≠ some (.map, t) ∧ p.handler ≠ some (.andThen, t)) ∧
     (kind.isTry = true → ∀ t, p.handler ≠ some (.then_, t)) := by
@@ -94,23 +99,9 @@ theorem mkCtx_ok {p : Input} {kind : Kind} (hs : Supported p kind) {c : Ctx} (h 
           cases h
           have hne : p.branches ≠ [] := by
             intro he; simp [he] at h4
-          refine ⟨?_, rfl, rfl, rfl, ?_, rfl, ?_, ?_⟩
-          · have hna : kind.isTry = true → kind.isAsync = false := by
-              intro ht
-              cases ha : kind.isAsync with
-              | false => rfl
-              | true => rw [hs.asyncNotTry ha] at ht; cases ht
-            refine ⟨hs.asyncNotTry, hs.noJoiner, ?_, ?_, by simp, rfl, by simp, by simp [namesOf], ?_, ?_, ?_, ?_⟩
+          refine ⟨?_, rfl, rfl, rfl, rfl, ?_, rfl, ?_, ?_⟩
+          · refine ⟨hs.noJoiner, ?_, by simp, rfl, by simp, by simp [namesOf], ?_, ?_, ?_, ?_⟩
             · simp [hs.noLazy, Kind.threads]
-            · intro htry
-              have htry' : kind.isTry = true := htry
-              simp only [hna htry', htry']
-              cases ht : p.transpose with
-              | none => rfl
-              | some b =>
-                cases b with
-                | true => rfl
-                | false => exact absurd ht hs.transposeDefault
             · simp only [Ctx.vars, List.map_map]
               exact branchVars_nodup p.branches 0 hs.namesNodup
             · intro i hi
@@ -215,9 +206,34 @@ theorem specLoop_post (sc : SpecCfg) (rem k : Nat) (vals : List (Option Value)) 
 
 /-! ### the theorem -/
 
-theorem sync_refines (σ : World) (parent : Option String) (p : Input) (kind : Kind) (code : Code)
-    (hs : Supported p kind) (hgen : gen p kind = .ok code) :
-    evalCode σ parent code = specRun σ parent p kind := by
+/-- The refinement argument around the step loop: handler definition in front, handler call behind.  `loop` is the
+    reference loop (`specLoop` for `sync_refines`, `specLoopAT` for the async try macros); `hmainH` is the induction over
+    the steps for it, `hpostH` what it guarantees about its outcome. -/
+theorem refines_gen (σ : World) (parent : Option String) (p : Input) (kind : Kind) (code : Code)
+    (hs : SupportedBase p) (hgen : gen p kind = .ok code)
+    (loop : SpecCfg → Nat → Nat → List (Option Value) → M Fin)
+    (hmainH : ∀ (c : Ctx) (steps : Steps), CtxOK c (namesOf p) → c.kind = kind →
+      c.transpose = p.transpose.getD (kind.isTry && !kind.isAsync) →
+      c.activeIdx 0 = List.range c.n →
+      (∀ b ∈ c.activeIdx 0, usesPrev ((specCfgOf σ parent (namesOf p) c).acts b 0) = false) →
+      0 < c.n → c.maxSteps = (c.chains.map (·.length)).foldl max 0 → c.maxSteps ≠ 0 →
+      genSteps c (c.maxSteps - 1) 0 = .ok steps → Inv c (namesOf p) 0 [] (List.replicate c.n none) →
+      evalSteps (cfgOf σ parent (namesOf p)) [] steps =
+        (loop (specCfgOf σ parent (namesOf p) c) (c.maxSteps - 1) 0 (List.replicate c.n none)).andThen fun f =>
+          M.ret (encode c.kind.isTry f))
+    (hpostH : ∀ (c : Ctx) (f : Fin), CtxOK c (namesOf p) → c.kind = kind →
+      (loop (specCfgOf σ parent (namesOf p) c) (c.maxSteps - 1) 0 (List.replicate c.n none)).res = .ok f →
+      match f with
+      | .vals vs => vs.length = c.n
+      | .failed v => v.isSucc = false ∧ kind.isTry = true) :
+    evalCode σ parent code =
+      let c : SpecCfg := ⟨σ, kind, p.branches.map (fun b => b.pat.map (·.ident)), parent,
+                          p.branches.map fun b => splitSteps b.members⟩
+      (match p.handler with
+        | some _ => (M.tell [.ev .handlerDef]).andThen fun _ => M.lift σ.handlerDef.toRes
+        | none => M.ret ()).andThen fun _ =>
+      (loop c (c.maxDepth - 1) 0 (List.replicate c.n none)).andThen fun f =>
+      specHandle c (p.handler.map Prod.fst) f := by
   unfold gen at hgen
   split at hgen
   · cases hgen
@@ -229,7 +245,7 @@ theorem sync_refines (σ : World) (parent : Option String) (p : Input) (kind : K
       · cases hgen
       · rename_i steps hsteps
         cases hgen
-        obtain ⟨ok, hkind, hchains, hn, hpos, hmaxeq, hnotry, htryh⟩ := mkCtx_ok hs hc
+        obtain ⟨ok, hkind, hchains, htrans, hn, hpos, hmaxeq, hnotry, htryh⟩ := mkCtx_ok hs hc
         have hsc : specCfgOf σ parent (namesOf p) c =
             ⟨σ, kind, p.branches.map (fun b => b.pat.map (·.ident)), parent,
               p.branches.map fun b => splitSteps b.members⟩ := by
@@ -255,8 +271,8 @@ theorem sync_refines (σ : World) (parent : Option String) (p : Input) (kind : K
           refine ⟨by simp, ?_, fun h => absurd h (Nat.lt_irrefl 0)⟩
           intro i hi
           simp [List.lookup, hi]
-        have hmain := evalSteps_eq ok σ parent hall0 hfirst0 hpos (c.maxSteps - 1) 0 [] _ steps hinv0 hsteps
-        unfold evalCode specRun
+        have hmain := hmainH c steps ok hkind htrans hall0 hfirst0 hpos hmaxeq hmax hsteps hinv0
+        unfold evalCode
         simp only
         have hcfg : (⟨σ, p.branches.map (fun b => b.pat.map (·.ident)), parent⟩ : EvalCfg) = cfgOf σ parent (namesOf p) := rfl
         rw [hcfg, hmain, hsc]
@@ -273,7 +289,7 @@ theorem sync_refines (σ : World) (parent : Option String) (p : Input) (kind : K
         rw [M.andThen_assoc]
         apply M.andThen_congr
         intro f hf
-        have hpost := specLoop_post _ _ _ _ f hf
+        have hpost := hpostH c f ok hkind (by rw [hsc]; exact hf)
         simp only [M.ret_andThen, hkind]
         -- the handler
         cases hh : p.handler with
@@ -325,5 +341,33 @@ theorem sync_refines (σ : World) (parent : Option String) (p : Input) (kind : K
               simp only [genHandle, evalHandle, specHandle, Option.map_some, encode, htry, if_true, evalCall, hrl]
               rw [← hvl, untuple_mkTuple]
               rfl
+
+/-- **Refinement** for the sequential, thread-spawning and non-try async macros. -/
+theorem sync_refines (σ : World) (parent : Option String) (p : Input) (kind : Kind) (code : Code)
+    (hs : Supported p kind) (hgen : gen p kind = .ok code) :
+    evalCode σ parent code = specRun σ parent p kind := by
+  refine refines_gen σ parent p kind code hs.toSupportedBase hgen specLoop ?_
+    (fun c f _ hkind h => by
+      have := specLoop_post _ _ _ _ f h
+      cases f with
+      | vals vs => simpa using this
+      | failed v => exact ⟨this.1, by rw [← hkind]; exact this.2⟩)
+  intro c steps ok hkind htrans hall0 hfirst0 hpos hmaxeq hmax hsteps hinv0
+  have hnt : c.kind.isAsync = true → c.kind.isTry = false := by rw [hkind]; exact hs.asyncNotTry
+  have htrT : c.kind.isTry = true → c.transpose = true := by
+    rw [hkind, htrans]
+    intro htry
+    have hna : kind.isAsync = false := by
+      cases ha : kind.isAsync with
+      | false => rfl
+      | true => rw [hs.asyncNotTry ha] at htry; cases htry
+    simp only [htry, hna]
+    cases ht : p.transpose with
+    | none => rfl
+    | some b =>
+      cases b with
+      | true => rfl
+      | false => exact absurd ht hs.transposeDefault
+  exact evalSteps_eq ok σ parent hall0 hfirst0 hpos hnt htrT (c.maxSteps - 1) 0 [] _ steps hinv0 hsteps
 
 end JoinModel
